@@ -27,8 +27,8 @@ Proof. exact C13x_linear_gen. Qed.
    So at most cap_unord_q + n records are alive, for every input.  On the source without the
    capacity test the number is not bounded by any function of n: notes/XF9Refuted_before_fix.v
    (C13x_unord_count_refuted, 100 records with 2 workers).
-   [preach]: every POk label advances the parser's bit position by at least 32 bits, which
-   holds of parse() (see Properties_C11x.C11x_capacity). *)
+   [preach]: every POk label lies at least 32 bits after the base of the block confirmed before it,
+   which holds of parse() (see Properties_C11x.C11x_capacity). *)
 Theorem C13x_unord_records :
   forall n small ultra st, preach gen_cfg (init_dec n small ultra) st -> x_failed st = None ->
     N.of_nat (length (x_unords st)) <= cap_unord_q (dec_total_in small n) n (dec_total_out small n) + n.
